@@ -15,10 +15,11 @@ import re
 import featlib
 from featlib import Check, render, walk, children
 import ikinds
+import norm_c12
 from ikinds import (Contracts, FnKinds, FunctionIndex, Lin, Rng, Top, strip, _subscript, _is_incdec, coverage, frames_key, elsewhere)
 
 GEO = featlib.repo_path("kernel/geometry/")
-FILES = GEO + r"(patch_|parti_|mesh_node|intern/patch_index)|" + featlib.repo_path("kernel/adjacency/graph.hpp")
+FILES = GEO + r"(patch_|parti_|mesh_node|mesh_part\.hpp|intern/patch_index)|" + featlib.repo_path("kernel/adjacency/graph.hpp")
 G = r"Adjacency::Graph$"
 
 
@@ -73,6 +74,8 @@ def contracts():
                      r"Geometry::VertexSet<.*>$": ("NV({o})", None)}
     # index_set(i, j): i < get_num_entities(), value < get_index_bound()   (index_set.hpp)
     ct.value_calls = {r"Geometry::IndexSet<\d+>::operator\(\)": ("i", "Dom({o})", "Img({o})")}
+    # target_set.get_indices(): "pointer to the target index array" = the array target_set[.] subscripts   (target_set.hpp)
+    ct.array_methods = {(r"Geometry::TargetSet$", "get_indices"): ("N({o})", "Par({o})")}
     ct.array_fields = {(G, "_domain_ptr"): (("Dom({o})", 1), ("NZ({o})", 1), True),
                        (G, "_image_idx"): ("NZ({o})", "Img({o})", False)}
     ct.ctor_sizes = {r"Adjacency::Graph::Graph$": {"num_nodes_domain": "Dom({o})", "num_nodes_image": "Img({o})", "num_indices_image": "NZ({o})"}}
@@ -170,6 +173,11 @@ def seed(fk):
 
 
 C12NAMES = ("build", "clear", "size", "get_num_entities", "reserve", "push_back", "_has_face_rank", "fill")
+# helper functions that are never inlined: anchors of their own rules / calls the rules look for by name / accessors with contracts
+KEEP = C12NAMES + ("add_halo", "add_patch", "add_mesh_part", "add_mesh_part_node", "make_unique", "make", "split", "intersect", "apply", "_apply", "_build_tsf",
+                   "update_boundary_size", "get_boundary_size", "get_boundary_deviation", "refine_mesh_parts", "refine", "refine_unique", "extract_patch", "rename_halos",
+                   "build_elems_at_rank", "mutate", "serialize", "fill_.*", "get_.*", "find_.*", "_render_.*", "sort_indices", "degree", "image_begin", "image_end",
+                   "success", "create_.*", "clone.*")
 
 
 def vob(ck, fk, keys, rule, key, ok, detail, file=None, line=None, **kw):
@@ -202,6 +210,11 @@ class World:
         self.ct = contracts()
         self.fns = [fn for f in self.facts for fn in f.functions if fn.tk != "pattern" and fn.body is not None]
         self._fk = {}
+        # std algorithms as loops, new helpers inlined (lib/norm_c12.py); the names below are the vocabulary the rules read by name
+        self.norm = norm_c12.Normaliser(self.findex, keep=KEEP, else_of_return=(r"Geometry::PartiIterative<.*>::build_elems_at_rank$",))
+        for fn in self.fns:
+            if re.search(r"kernel/geometry/(patch_|parti_|mesh_node|intern/patch_index)", fn.file):
+                self.norm.apply(fn)
 
     def fk(self, fn):
         k = (fn.full, fn.file, fn.line)
@@ -439,8 +452,14 @@ def rule_parti(w):
                 vob(ck, fk, (key, "graph"), "E2.parti-coverage", "%s/%s" % (name, key), ok, detail, fn.file, fn.line)
         ident = [e for e in fk.events if e.kind == "sub" and e.mode == "write" and e.arr.key == "graph._image_idx"]
         okid = len(ident) == 1 and ident[0].val_canon == ident[0].idx_canon
-        ck.ob("E2.parti-coverage", name + "/identity", okid, "element indices are stored as the identity idx[i] = i (each element exactly once)" if okid else
-              "the image index array is not the identity: %s" % "; ".join("idx[%s] = %s" % (e.idx_canon, e.val_canon) for e in ident), fn.file, fn.line)
+        if not ident:
+            # no store found at all: a MISSING effect, only definite if nothing unmodelled could provide it
+            vob(ck, fk, ("graph._image_idx", "graph"), "E2.parti-coverage", name + "/identity", False, "no assignment to the image index array found", fn.file, fn.line)
+        elif fk.unknown and not okid:
+            ck.incomplete("E2.parti-coverage", "%s/identity: %s" % (name, "; ".join(x[0] for x in fk.unknown)))
+        else:
+            ck.ob("E2.parti-coverage", name + "/identity", okid, "element indices are stored as the identity idx[i] = i (each element exactly once)" if okid else
+                  "the image index array is not the identity: %s" % "; ".join("idx[%s] = %s" % (e.idx_canon, e.val_canon) for e in ident), fn.file, fn.line)
         rets = [n for n, f, a in fk.returns if n is not None]
         okr = len(rets) == 1 and fk.okey(strip(rets[0].get("e"))) == "graph" or (len(rets) == 1 and "graph" in render(rets[0]))
         ck.ob("E2.parti-coverage", name + "/returns", okr, "the completed graph is returned", fn.file, fn.line)
@@ -917,7 +936,7 @@ def rule_halo_rebuild(w):
         if cfg is None:
             ck.incomplete("E7.halo-rebuild", "%s: no CFG" % key)
             return
-        ok, bad = cfg.must_pass(pred)
+        ok, bad = norm_c12.ip_must_pass(fn, pred, w.findex)
         if ok:
             ck.ob("E7.halo-rebuild", key, True, "every path through %s passes %s" % (fn.name, what), fn.file, fn.line)
             return
@@ -1004,7 +1023,17 @@ def rule_wrapper_levels(w):
         if fn.tk not in ("inst", "spec") or not re.search(r"kernel/geometry/(patch_|intern/patch_index)", fn.file) or fn.cfg is None:
             continue
         base = ikinds.strip_targs(fn.cls or "")
-        calls = [n for n in fn.nodes() if featlib.is_call(n) and _side_effecting(fn, n)]
+        calls = [(n, fn) for n in w.norm.orig_nodes(fn) if featlib.is_call(n) and _side_effecting(fn, n)]
+        # a block of the wrapper moved into a member helper of the same class: its calls are the wrapper's calls
+        for n, _ in list(calls):
+            h = w.findex.lookup(n) if n.get("k") in ("MCall", "Call") else None
+            if h is not None and h is not fn and h.cls == fn.cls and h.name != fn.name and h.cfg is not None and \
+                    (n.get("k") == "Call" or strip(n.get("obj")) is None or strip(n.get("obj")).get("k") == "This"):
+                sub = [(m, h) for m in w.norm.orig_nodes(h) if featlib.is_call(m) and _side_effecting(h, m)]
+                if sub:
+                    calls = [(x, o) for x, o in calls if x is not n] + sub
+        owner = {id(n): o for n, o in calls}
+        calls = [n for n, o in calls]
         rec = [n for n in calls if (n.get("callee") or "").rsplit("::", 1)[-1] == fn.name and n.get("ccls") != fn.cls
                and ikinds.strip_targs((n.get("callee") or "").rsplit("::", 1)[0]) == base and base]
         if not rec:
@@ -1017,7 +1046,7 @@ def rule_wrapper_levels(w):
             what = "the lower level %s" % cname if n in rec else cname
             obj = render(strip(n.get("obj"))) if n.get("k") == "MCall" and n.get("obj") is not None else ""
             key = "%s/%s%s" % (short(fn), (obj + ".") if obj and obj != "this" else "", cname.rsplit("::", 1)[-1] if n not in rec else "lower-level " + fn.name)
-            ok, bad = fn.cfg.must_pass(lambda x, nid=nid: x.get("i") == nid)
+            ok, bad = norm_c12.ip_must_pass(fn, lambda x, tgt=n: x is tgt, w.findex)
             n_inst += 1
             if ok:
                 ck.ob("E4.wrapper-all-levels", key, True, "every path through %s executes %s" % (fn.name, what), fn.file, n.get("l"))
@@ -1258,6 +1287,31 @@ def _nonnull_params(w, callee):
     return out
 
 
+def _fresh_nonnull(w, expr, depth=0):
+    """expression that is a non-null unique_ptr by construction: unique_ptr<T>(new ...), std::make_unique<T>(...), or a call of a
+    repo function whose body is `return <such an expression>;` (Factory::make_unique)"""
+    e = strip(expr)
+    for _ in range(3):
+        if e is not None and e.get("k") == "Call" and (e.get("callee") or "") in ("std::move", "std::forward") and e.get("a"):
+            e = strip(e["a"][0])
+    if e is None or depth > 2:
+        return False
+    if e.get("k") == "Call" and (e.get("callee") or "").startswith("std::make_unique"):
+        return True
+    if e.get("k") in ("Construct", "TempObj") and "unique_ptr" in (e.get("callee") or "") and len(e.get("a", [])) == 1:
+        a0 = strip(e["a"][0])
+        if a0.get("k") == "New":
+            return True
+        return _fresh_nonnull(w, a0, depth + 1)
+    if e.get("k") in ("MCall", "Call"):
+        callee = w.findex.lookup(e)
+        if callee is not None and callee.body is not None:
+            stmts = [x for x in callee.body.get("s", []) if not FnKinds._is_noise(x)]
+            if len(stmts) == 1 and stmts[0].get("k") == "Return":
+                return _fresh_nonnull(w, stmts[0].get("e"), depth + 1)
+    return False
+
+
 def rule_nonnull_arg(w):
     ck = w.ck
     fns = [fn for fn in w.find(r"Geometry::RootMeshNode<.*>::extract_patch$")]
@@ -1278,21 +1332,61 @@ def rule_nonnull_arg(w):
                 if i >= len(pn) or pn[i] not in req:
                     continue
                 a2 = strip(a)
+                a3 = a2
                 for _ in range(3):
-                    if a2.get("k") in ("Call", "Construct", "TempObj") and len(a2.get("a", [])) == 1:
-                        a2 = strip(a2["a"][0])
+                    if a3.get("k") in ("Call", "Construct", "TempObj") and len(a3.get("a", [])) == 1 and \
+                            (a3.get("k") != "Call" or (a3.get("callee") or "") in ("std::move", "std::forward")):
+                        a3 = strip(a3["a"][0])
+                if a3.get("k") == "Ref":
+                    a2 = a3
                 if a2.get("k") != "Ref" or a2.get("dk") != "local":
+                    if a2.get("k") == "Ref":
+                        continue          # parameter / member: the caller's obligation
+                    # a value built in place (the named temporary removed): fresh objects are non-null, anything else is not read
+                    key = "%s/%s(%s=<value>)" % (name, e.name, pn[i])
+                    if _fresh_nonnull(w, a2):
+                        obs.setdefault(key, []).append((True, "%s receives a freshly created mesh part (%s)" % (e.name, render(a2)[:60]), fn.file, e.node.get("l")))
+                    else:
+                        obs.setdefault(key, []).append((None, "the value %s handed to %s() is not recognised as a fresh (non-null) object" % (render(a2)[:60], e.name), fn.file, e.node.get("l")))
                     continue
                 v = fk.locals.get(a2["d"])
-                if v is None or v.get("init") is not None and strip(v["init"]).get("a"):
-                    continue          # initialised with a value
-                n += 1
+                if v is None:
+                    continue
                 key = "%s/%s(%s=%s)" % (name, e.name, pn[i], a2["n"])
+                if v.get("init") is not None and strip(v["init"]).get("a"):
+                    # initialised with a value
+                    asg0 = [x for x in fk.events if x.kind == "obj-assign" and x.key == a2["n"] and x.seq < e.seq]
+                    if not asg0 and _fresh_nonnull(w, v["init"]):
+                        obs.setdefault(key, []).append((True, "%s is initialised with a freshly created mesh part" % a2["n"], fn.file, e.node.get("l")))
+                    continue
+                n += 1
+                # control dependent on a non-null test of the argument?
+                g, gtxt = norm_c12.guarded_nonnull(fk, e, a2["d"], a2["n"])
+                if g == "null":
+                    obs.setdefault(key, []).append((False, "%s: %s() asserts a non-null `%s` and aborts on every such call (the guard is negated)" % (gtxt, e.name, pn[i]), fn.file, e.node.get("l")))
+                    continue
+                if g is True:
+                    obs.setdefault(key, []).append((True, "%s may be null (a part that does not intersect the patch), but %s: %s() is only reached with a non-null part" % (
+                        a2["n"], gtxt, e.name), fn.file, e.node.get("l")))
+                    continue
+                if g is None:
+                    obs.setdefault(key, []).append((None, gtxt, fn.file, e.node.get("l")))
+                    continue
                 asg = [x for x in fk.events if x.kind == "obj-assign" and x.key == a2["n"] and x.seq < e.seq]
                 uncond = [x for x in asg if frames_key(x.frames) == frames_key(e.frames)]
                 cond = [x for x in asg if len(x.frames) > len(e.frames) and frames_key(x.frames[:len(e.frames)]) == frames_key(e.frames)]
-                if uncond:
+                # the call sits in the very branch that assigned the part (`if(build) { p = make(); add(p); }`)
+                same = [x for x in asg if len(x.frames) <= len(e.frames) and all(f1.node is f2.node and f1.branch == f2.branch for f1, f2 in zip(x.frames, e.frames))
+                        and not any(f.kind == "loop" for f in e.frames[len(x.frames):])]
+                tests = [f for f in e.frames if f.kind == "if" and norm_c12.mentions(f.node.get("c"), a2["d"])] + \
+                        [x for x in fk.events if x.kind == "if" and x.seq < e.seq and norm_c12.mentions(x.node.get("c"), a2["d"]) and (not asg or x.seq > asg[-1].seq)]
+                if (uncond or same) and _fresh_nonnull(w, (uncond or same)[-1].rhs) and (uncond or same)[-1] is asg[-1]:
+                    obs.setdefault(key, []).append((True, "%s is assigned a fresh mesh part on every path to %s()" % (a2["n"], e.name), fn.file, e.node.get("l")))
+                elif uncond or same:
                     obs.setdefault(key, []).append((True, "%s is assigned on every path before it is handed to %s" % (a2["n"], e.name), fn.file, e.node.get("l")))
+                elif tests:
+                    obs.setdefault(key, []).append((None, "%s is tested in `%s` before %s(), a test this rule does not read as a non-null guard" % (
+                        a2["n"], render((tests[0].node).get("c"))[:70], e.name), fn.file, e.node.get("l")))
                 elif cond and all(any(f.kind == "if" for f in x.frames[len(e.frames):]) for x in cond):
                     c0 = [f for f in cond[0].frames[len(e.frames):] if f.kind == "if"][0]
                     obs.setdefault(key, []).append((False, "%s is default-constructed (null) and only assigned under `%s`; on the other path the null pointer is passed to %s(), whose entry "
@@ -1300,7 +1394,7 @@ def rule_nonnull_arg(w):
                                                         a2["n"], render(c0.node.get("c"))[:70], e.name, pn[i], "halo" if e.name == "add_halo" else "patch mesh part"), fn.file, e.node.get("l")))
                 else:
                     obs.setdefault(key, []).append((None, "definition of %s before %s() not understood" % (a2["n"], e.name), fn.file, e.node.get("l")))
-    if n == 0:
+    if n == 0 and not obs:
         ck.incomplete("E7.nonnull-arg", "no call of add_halo/add_patch with a local mesh part in extract_patch found")
     for key, lst in sorted(obs.items()):
         bad = [x for x in lst if x[0] is False]
